@@ -77,4 +77,20 @@ CLAIMS = {
         note='Bounds: quick k<=3 chunks, thorough k<=4; newline counts 1..9, unbounded options in [0,64]. NOT decided (stated): a full run of '
              'do_blank_lines (the cap on every newline chunk) - CBMC did not finish on its list walks even for 2 chunks; the other nl_ passes.',
         design_ref='DESIGN.md section 4, C20'),
+    'C16': dict(
+        text='Bounded model checking of the value reader of numeric options (real read_number with strtol model, BoundedOption::validate, '
+             'warnUnexpectedValue/warnIncompatibleReference): for ALL value texts of n characters, including references to other options '
+             '(plain and negated) with arbitrary referenced values, a value is accepted iff it denotes an in-range number; a rejected value '
+             'leaves the option untouched and produces a diagnostic; the option never leaves its documented range. validate() agrees with '
+             'the declared bounds for every long value in every BoundedOption instantiation of options.h.',
+        note='Bounds: quick n<=3 characters, thorough n<=5. find_option() replaced by a resolver over three reference options; OptionWarning '
+             'counts. Not decided: split_args / process_option_line / file loop, the nl_max cross-option guard.',
+        design_ref='DESIGN.md section 4, C16'),
+    'C15': dict(
+        text='Bounded model checking of the value-level round trip: for every value of the enumerated option types (iarf, line_end, token_pos) '
+             'and bool, str() followed by read() restores the value without diagnostic (real to_string/convert_string tables generated from '
+             'the tree); for bounded numeric options every in-range decimal or reference text is accepted with exactly the denoted value.',
+        note='Not decided: string options and quoting (the known defect D4: save_option_file writes strings unescaped), custom keyword and '
+             'file_ext directives, whole-file idempotence of --update-config, behavioural equivalence.',
+        design_ref='DESIGN.md section 4, C15'),
 }
